@@ -3,7 +3,7 @@
    the value of every probability term, so the theorems hold for every distribution. Division is total on Q
    (x / 0 = 0); Fraction.simplify, which cancels factors, carries the hypothesis that the denominator is not zero. *)
 From Coq Require Import List Bool QArith.
-From Y0 Require Import Base.ListSet Dsl.Syntax Dsl.Build Dsl.Canon Dsl.Sem Dsl.Laws Proofs.DslP Proofs.SemP Proofs.LawP Proofs.SumSimpP Proofs.CanonSemP Proofs.ChainP.
+From Y0 Require Import Base.ListSet Dsl.Syntax Dsl.Build Dsl.Canon Dsl.Sem Dsl.Laws Proofs.DslP Proofs.SemP Proofs.LawP Proofs.SumSimpP Proofs.CanonSemP Proofs.ChainP Proofs.ContractP.
 Import ListNotations.
 Open Scope Q_scope.
 
@@ -77,6 +77,12 @@ Theorem C13_contraction m pop nch dch r :
   eval m (contract (EFrac (EProb pop nch []) (EProb pop dch []))) r == atom m pop nch [] r / atom m pop dch [] r.
 Proof. exact (fun Hl => eval_contract m Hl pop nch dch r). Qed.
 
+(* the traversal: contracting every quotient of two joint terms inside sums and products leaves the meaning unchanged *)
+Theorem C13_recursive_contraction m e :
+  lawful m -> wfc e = true -> is_err (recursive_contract e) = false ->
+  forall r, eval m (recursive_contract e) r == eval m e r.
+Proof. exact (fun Hl => eval_recursive_contract m Hl e). Qed.
+
 (* the code before the repair contracted across populations: PP[S](A, B) / P(B) became PP[S](A | B) *)
 Theorem C13_old_contraction_ignored_the_population :
   contract_old (EFrac (EProb (Some (V 17)) [V 0; V 1] []) (EProb None [V 1] [])) = EProb (Some (V 17)) [V 0] [V 1] /\
@@ -115,6 +121,7 @@ Print Assumptions C13_chain_expansion.
 Print Assumptions C13_fraction_expansion.
 Print Assumptions C13_bayes_expansion.
 Print Assumptions C13_contraction.
+Print Assumptions C13_recursive_contraction.
 Print Assumptions C13_old_contraction_ignored_the_population.
 Print Assumptions C13_old_sum_simplification_ignored_the_side_conditions.
 Print Assumptions C13_chain_expansion_yields_single_child_factors.
